@@ -300,6 +300,7 @@ func genC06(r *rand.Rand, tier string, idx int) *World {
 	b, _ := json.Marshal(cs)
 	w.Extra["case"] = string(b)
 	w.Cfg = Config{Kubelet: true, KubeletFaults: true, MapOrder: 0, Stall: chance(r, 0.3)}
+	w.Cfg.PatchDenied = chance(r, 0.12) // the canary label cannot be written: the pods are evaluated all the same
 	if idx%3 == 2 {
 		w.Cfg.KubeletSkewSec = pick(r, 0, 1, -1, 2)
 		w.Cfg.SkewSec = pick(r, 0, 1, -1)
@@ -463,6 +464,9 @@ func genC15(r *rand.Rand, tier string, idx int) *World {
 	}
 	b, _ := json.Marshal(restarts)
 	w.Extra["restarts"] = string(b)
+	if chance(r, 0.3) {
+		w.Extra["termRestarted"] = "1"
+	}
 	can := &CanaryDef{Replicas: pick(r, "1", "2", "3", "4", "25%", "50%", "100%"), Duration: "6h"}
 	switch r.IntN(5) {
 	case 0, 1:
@@ -522,7 +526,13 @@ func bodyC15(s *Sim) {
 	}
 	for i, n := range s.Store.Nodes() {
 		if eligible(n, def.Templates["A"]) {
-			s.injectPod(a, n, PodState{Kind: "ready", Restarts: int32(restarts[i])})
+			ps := PodState{Kind: "ready", Restarts: int32(restarts[i])}
+			if s.W.Extra["termRestarted"] == "1" && restarts[i] > 0 && i%2 == 0 {
+				// the much-restarted pod was deleted a moment ago and is still terminating: its restarts
+				// are part of its node's history all the same
+				ps.Term = true
+			}
+			s.injectPod(a, n, ps)
 		}
 	}
 	s.RunTask(CtrlERS, types.NamespacedName{Namespace: a.Namespace, Name: a.Name})
@@ -760,6 +770,9 @@ func genC01Inject(r *rand.Rand, tier string, idx int) *World {
 	w.Cfg = Config{Kubelet: true, MapOrder: pick(r, 0, 0, 1, 2)}
 	if idx%4 == 3 {
 		w.Cfg.PReject, w.Cfg.PLost = pick(r, 0.05, 0.2), pick(r, 0.0, 0.05)
+	}
+	if canary && chance(r, 0.25) {
+		w.Cfg.PatchDenied = true // the canary label cannot be written: everything else goes on
 	}
 	return w
 }
